@@ -21,7 +21,7 @@ RULE = ("Hypothesis: general graphs x {all_classes_mode, target_classes} x switc
         "shape has exactly one path.  Non-trivial: the document has >=1 shape reference and (a removed shape, a prefix collision, "
         "a custom namespace or Turtle-declared prefixes); distinct by SHA-1 of the case.")
 ASSUMPTIONS = c01.ASSUMPTIONS + ["rdflib 6.0.2 Turtle parser as the SHACL syntax oracle"]
-BUDGET = {"quick": {"examples": 4800, "wall": 150}, "thorough": {"examples": 120000, "wall": 3000}}
+BUDGET = {"quick": {"examples": 12000, "wall": 150}, "thorough": {"examples": 120000, "wall": 3000}}
 FLOORS = {"nontrivial": 0.15, "shacl": 0.2, "shexc": 0.3}
 SH = "http://www.w3.org/ns/shacl#"
 NS_DICTS = [
